@@ -555,7 +555,7 @@ class ExtendedIndexedOperand(Operand):
         if "S" in self.right:
             raw_post_byte |= 0x60
 
-        if self.left == "" or (type(self.left) != str and self.left.is_numeric() and self.left.int == 0):
+        if self.left == "" or (type(self.left) != str and self.left.is_numeric() and self.left.int == 0 and "PCR" not in self.right):
             if "-" in self.right or "+" in self.right:
                 if self.right == "X+" or self.right == "Y+" or self.right == "U+" or self.right == "S+":
                     raise OperandTypeError("[{}] not allowed as an extended indirect value".format(self.right))
@@ -600,9 +600,13 @@ class ExtendedIndexedOperand(Operand):
                     post_byte_choices = [0x9C, 0x9D]
                     max_size += 2
                 else:
-                    size += 2 if self.left.is_extended() else 1
+                    # a bare numeric n,PCR: n is the displacement itself
+                    displacement = -self.left.int if self.left.is_negative() else self.left.int
+                    fits_8_bit = -128 <= displacement <= 127 and not self.left.is_extended()
+                    size += 1 if fits_8_bit else 2
                     max_size = size
-                    raw_post_byte |= 0x9D if self.left.is_extended() else 0x9C
+                    raw_post_byte |= 0x9C if fits_8_bit else 0x9D
+                    additional = NumericValue(displacement, size_hint=2 if fits_8_bit else 4)
             else:
                 if additional.is_negative():
                     if additional.is_8_bit():
@@ -686,7 +690,7 @@ class IndexedOperand(Operand):
         if "S" in self.right:
             raw_post_byte |= 0x60
 
-        if self.left == "" or (type(self.left) != str and self.left.is_numeric() and self.left.int == 0):
+        if self.left == "" or (type(self.left) != str and self.left.is_numeric() and self.left.int == 0 and "PCR" not in self.right):
             raw_post_byte |= 0x80
             if "-" in self.right or "+" in self.right:
                 if "+" in self.right:
@@ -731,9 +735,13 @@ class IndexedOperand(Operand):
                     post_byte_choices = [0x8C, 0x8D]
                     max_size += 2
                 else:
-                    size += 2 if self.left.is_extended() else 1
+                    # a bare numeric n,PCR: n is the displacement itself
+                    displacement = -self.left.int if self.left.is_negative() else self.left.int
+                    fits_8_bit = -128 <= displacement <= 127 and not self.left.is_extended()
+                    size += 1 if fits_8_bit else 2
                     max_size = size
-                    raw_post_byte |= 0x8D if self.left.is_extended() else 0x8C
+                    raw_post_byte |= 0x8C if fits_8_bit else 0x8D
+                    additional = NumericValue(displacement, size_hint=2 if fits_8_bit else 4)
             else:
                 if additional.is_negative():
                     if additional.is_4_bit():
